@@ -10,6 +10,7 @@ Blocks: FPAdder_SP, FPMult_SP, FPComparator_SP (plain / absolute=True), InttoFP_
 import struct
 
 import py4hw
+from mc import core
 from mc.refmodels import fpblocks as fp
 
 LEVEL = 'exploration'
@@ -293,7 +294,15 @@ def boundary_pairs(d):
 
 
 # ------------------------------------------------------------------ building the blocks
-def build(block):
+_ELABORATED_ONLY = []
+
+
+def build(block, _first=True):
+    if _first:
+        # the same block is first elaborated in another system that is never simulated and stays alive (same instance
+        # paths, same wire names): what one system builds must not be picked up by the next one
+        _ELABORATED_ONLY.append(build(block, _first=False))
+        del _ELABORATED_ONLY[:-2]
     hw = py4hw.HWSystem()
     a = hw.wire('a', 32)
     b = hw.wire('b', 32)
@@ -314,7 +323,10 @@ def build(block):
         py4hw.FPtoInt_SP(hw, 'dut', a, outs[0], outs[1], outs[2], outs[3])
     else:
         raise ValueError(block)
+    if not _first:
+        return hw
     sim = hw.getSimulator()
+    core.bystander()
 
     def ev(x, y=0):
         a.put(x)
